@@ -107,7 +107,10 @@ CHECKS = {
              "squash was given excepted), no unmerged entries while the variable is false (generator profile NOCONF "
              "switches it off and on around overlapping patches)."),
     "C10": dict(category="proof", design_ref="DESIGN.md section 4/C10", note=HIST_NOTE, technique=HIST_TECH,
-        text="Theorem: the two-way merge model keeps every locally modified file or refuses; source ties: "
+        text="Theorems: the two-way merge model keeps every locally modified file or refuses; a successful refresh of "
+             "the top patch leaves the work tree exactly as it was, while the same statement for `stg refresh -p <applied "
+             "patch below the top>` is refuted in the model and on the binary (a patch above that sets the region back "
+             "applies cleanly: the file loses what the user wrote; known finding F43, corpus scenario); source ties: "
              "discard_changes only under --hard in every command, read-tree --reset only in reset --hard and behind "
              "fold's cleanliness check, cleanliness pre-checks present in push/pop/goto/float/sink. History-level "
              "differential testing with dirty trees (--keep and not) plus a direct oracle comparing the content of "
